@@ -14,6 +14,13 @@ def run(tier):
     classes = en.cls("REQ", "GUARD", "CONSUME", "STATUS", "PLANRESULT", "SELECT", "RNG")
     args = ["--tier", tier, "--dev", "2" if thorough else "1", "--batch", "1", "--classes", str(classes),
             "--dev-immediate", "1", "--imm-reduced", "1", "--deadline", str(1500 if thorough else 150)]
+    if not thorough:
+        # the two smallest programs once more with two deviations (e.g. two guards cancelling in the same round)
+        d2 = en.curated(names=["flat3"]) + [en.Prog("tinyortho", "O(C(l,l),l)"), en.Prog("tinyortho2", "C(O(l,l),l)")]
+        for p in d2:
+            p.args = ["--dev", "2", "--classes", str(en.cls("REQ", "GUARD"))]
+            p.label += "/dev2"
+        progs += d2
     res = en.run_all(chk, "C16", progs, args, timeout=(2400 if thorough else 400))
     en.aggregate(chk, res, "C16")
     chk.coverage["explanation"] = (
